@@ -117,6 +117,41 @@ Theorem C12_refused_unchanged : forall g s o,
 Proof. exact refused_unchanged. Qed.
 Print Assumptions C12_refused_unchanged.
 
+(** the same under injected failures, for the three operations repaired in /repo 0472ed5 (Resize),
+    0c1a1af (SetCheckpoint), a3198e0 (createDisk): a snapshot / resize / set-checkpoint that does not
+    return success — because it is refused, or because ANY of its calls fails with any errno
+    ([fa]), from any directory and memory, also when the process dies later ([ca]) — leaves the memory
+    as it was.  [fix_mem g = true] is what the code has ([code_cfg]). *)
+Theorem C12_failed_unchanged : forall g w m o cnt ca fa om r n,
+  fix_mem g = true -> mem_guarded o ->
+  out_of_run (exec (op_prog g (Some m) o) w cnt ca fa) = Done (om, r, n) -> r <> Ok -> om = Some m.
+Proof. exact failed_unchanged. Qed.
+Print Assumptions C12_failed_unchanged.
+
+Theorem C12_failed_unchanged_code : forall n w m o k e om r a,
+  mem_guarded o ->
+  out_of_run (exec (op_prog (code_cfg n) (Some m) o) w 0 None (Some (k, e))) = Done (om, r, a) -> r <> Ok -> om = Some m.
+Proof. intros n w m o k e om r a Hg. apply failed_unchanged; [reflexivity | exact Hg]. Qed.
+Print Assumptions C12_failed_unchanged_code.
+
+(** it was false for the code before those commits (findings createdisk-memory-on-failure,
+    resize-size-on-failure, checkpoint-set-on-failure; kept as a record): with ENOSPC on the open of
+    volume.meta.tmp a SetCheckpoint leaves the new checkpoint, a Resize the new size, and a Snapshot
+    a memory whose Chain() fails *)
+Theorem C12_failed_unchanged_refuted :
+  let g := mkcfg 8 true true true false true false in
+  let s := run_ops g (created g 16384 7) [OOpen; OSetMode (Some RW); OSnap 1 false 1] in
+  let mem_after o k := match s_mem s with
+                       | Some m => match out_of_run (exec (op_prog g (Some m) o) (s_fs s) 0 None (Some (k, ENOSPC))) with
+                                   | Done (Some m', r, _) => Some (r, i_checkpoint (m_info m'), i_size (m_info m'), mchain g m')
+                                   | _ => None end
+                       | None => None end in
+  mem_after (OCheckpoint (Some (Snap 1))) 0 = Some (Failed, Some (Snap 1), 16384%N, Some [Head 1; Snap 1])
+  /\ mem_after (OResize 32768) 2 = Some (Failed, None, 32768%N, Some [Head 1; Snap 1])
+  /\ mem_after (OSnap 2 false 2) 22 = Some (Failed, None, 16384%N, None).
+Proof. exact failed_unchanged_refuted. Qed.
+Print Assumptions C12_failed_unchanged_refuted.
+
 (** the invariant used above is the one every reachable state has *)
 Theorem C12_reachable_invariant : forall g size now os,
   cfg_ok g -> size <> 0%N -> ok_hist g (created g size now) os -> InvS g (run_ops g (created g size now) os).
